@@ -1578,7 +1578,7 @@ S_MEMO_BASE = st.one_of(s_value(2, top=True), s_value(2, top=True), s_wrapped(s_
 S_CROSS_EXTRA = st.lists(st.sampled_from(FS_KEYS), min_size=2, max_size=3, unique_by=_hkey).map(_node("set"))
 
 
-def campaigns(tier):
+def _base_campaigns(tier):
     cross = st.fixed_dictionaries(
         {"recipes": st.tuples(st.lists(s_value(3, top=True), min_size=14, max_size=14), st.lists(S_CROSS_EXTRA, max_size=1)).map(lambda t: t[0] + t[1])}
     )  # fmt: skip
@@ -1602,3 +1602,12 @@ def campaigns(tier):
 
 
 PREDICATES = {}
+
+
+def campaigns(tier):
+    camps = list(_base_campaigns(tier))
+    if tier == "thorough":  # coverage-guided search over the same structured cases (fuzz/hyp_fuzz.py)
+        from vlib.core import cov_fuzz_campaign
+
+        camps.append(cov_fuzz_campaign(PID, [('lookalike', 20000), ('hard', 40000), ('memo', 10000)]))
+    return camps
